@@ -1,5 +1,5 @@
 """C07 - pickle steps = in-scope background steps followed by the scenario's own steps."""
-from . import compiler_rules as cr
+from . import compiler_rules as cr, parser_rules as pr
 from . import shape_rules as sh
 
 META = {
@@ -18,3 +18,5 @@ def run(rep):
     cr.rule_skel(rep, "C07.skel")
     cr.rule_steps(rep, want=("order", "guard", "fresh", "args"))
     cr.rule_input(rep, "C07.isolation")
+    # which background is in scope is decided by the nesting the parser reports
+    pr.rule_grammar(rep, "C07.nesting")
